@@ -1151,7 +1151,9 @@ class NestedPipeFunc(PipeFunc):
         parameters = set(self._all_inputs) - set(self._all_outputs)
         return {
             k: inspect.Parameter(
-                k,
+                # Only the keys are used as names; a scoped name such as "scope.x"
+                # is not accepted by `inspect.Parameter`.
+                k.replace(".", "__"),
                 inspect.Parameter.KEYWORD_ONLY,
                 # TODO: Do we need defaults here?
                 # default=...,  # noqa: ERA001
